@@ -177,7 +177,19 @@ def load_input(spec):
         fr = fixed_rng(PROP, 'prog%d' % spec[1])
         lang = spec[2]
         P = progen.gen(lang, fr, nfuncs=(1, 3), depth_max=fr.choice([3, 5]), stmts=(1, 4), comments=True)
-        return P.render(fr, style='mixed', indent=3)[0]
+        src = P.render(fr, style='mixed', indent=3)[0]
+        # some conditions span several lines (the brace options look at that)
+        out = []
+        for line in src.split(b'\n'):
+            t = line.lstrip()
+            if t.startswith((b'if (', b'else if (', b'while (', b'for (')) and fr.random() < 0.5:
+                for op in (b' && ', b' || ', b' == ', b' < ', b'; '):
+                    k = line.find(op)
+                    if k > 0:
+                        line = line[:k + len(op) - 1] + b'\n        ' + line[k + len(op):]
+                        break
+            out.append(line)
+        return b'\n'.join(out)
     return spec[1]
 
 
@@ -265,6 +277,17 @@ def check(ctx):
                 gi = fr.randrange(100000)
                 lang = fr.choice(['C', 'CPP', 'JAVA'])
                 tasks.append(('single:%s=%s:gen%d' % (o.name, val, gi), ('gen', gi, lang), lang, a))
+    # every pair of (option, value) within the brace family (the options that decide about '{' '}' look at each other's results)
+    fam = [o for o in mods if o.name.startswith(('mod_full_brace', 'mod_case_brace'))]
+    famv = [(o.name, v) for o in fam for v in mod_values(o)]
+    ctx.extra['brace_family_pairs'] = len(famv) * (len(famv) - 1) // 2
+    pairs = [(a, b) for i, a in enumerate(famv) for b in famv[i + 1:] if a[0] != b[0]]
+    for a, b in pairs:
+        fr = fixed_rng(PROP, 'pair:%s=%s:%s=%s' % (a + b))
+        for k in range(10 if quick else 30):
+            gi = fr.randrange(100000)
+            lang = fr.choice(['C', 'CPP', 'JAVA'])
+            tasks.append(('pair:%s=%s+%s=%s:gen%d' % (a + b + (gi,)), ('gen', gi, lang), lang, {a[0]: a[1], b[0]: b[1]}))
     # seeded subsets of mod_ options with random whitespace/comment options
     U = 60000
     ctx.extra['joint_universe'] = U
